@@ -97,9 +97,153 @@ let run_config () =
     done
   with End_of_file -> ()
 
+(* ---------------- s-expressions (the dump written by ggx skel) ---------------- *)
+type sexp = A of string | Q of string | L of sexp list
+
+let parse_sexps (src : string) : sexp list =
+  let n = String.length src in
+  let pos = ref 0 in
+  let rec skip () = if !pos < n && (src.[!pos] = ' ' || src.[!pos] = '\n' || src.[!pos] = '\t' || src.[!pos] = '\r') then (incr pos; skip ()) in
+  let hexv c = match c with '0'..'9' -> Char.code c - 48 | 'a'..'f' -> Char.code c - 87 | 'A'..'F' -> Char.code c - 55 | _ -> 0 in
+  let rec one () : sexp =
+    skip ();
+    if !pos >= n then failwith "sexp: eof" else
+    match src.[!pos] with
+    | '(' -> incr pos; let items = ref [] in
+      let rec loop () = skip (); if !pos >= n then failwith "sexp: unclosed" else if src.[!pos] = ')' then incr pos else (items := one () :: !items; loop ()) in
+      loop (); L (List.rev !items)
+    | '"' -> incr pos; let b = Buffer.create 16 in
+      let rec loop () =
+        if !pos >= n then failwith "sexp: unclosed string" else
+        match src.[!pos] with
+        | '"' -> incr pos
+        | '\\' -> Buffer.add_char b (Char.chr (16 * hexv src.[!pos + 1] + hexv src.[!pos + 2])); pos := !pos + 3; loop ()
+        | c -> Buffer.add_char b c; incr pos; loop () in
+      loop (); Q (Buffer.contents b)
+    | _ -> let st = !pos in
+      while !pos < n && (match src.[!pos] with ' ' | '\n' | '\t' | '\r' | '(' | ')' -> false | _ -> true) do incr pos done;
+      A (String.sub src st (!pos - st)) in
+  let res = ref [] in
+  let rec top () = skip (); if !pos < n then (res := one () :: !res; top ()) in
+  top (); List.rev !res
+
+let cs = chars_of_string
+let atom_int = function A s -> int_of_string s | _ -> failwith "int expected"
+let qstr = function Q s -> s | A "_" -> "" | _ -> failwith "string expected"
+
+let rec conv_ty (x : sexp) : ty option =
+  match x with
+  | A "_" -> None
+  | L [A "N"; pk; Q name] -> Some (TNamed ((match pk with Q p -> Some (cs p) | _ -> None), cs name))
+  | L [A "A"; Q name; rhs] -> (match conv_ty rhs with Some r -> Some (TAlias (cs name, r)) | None -> Some (TOther (cs "alias-of-nil")))
+  | L [A "P"; e] -> (match conv_ty e with Some r -> Some (TPtr r) | None -> Some (TOther (cs "ptr-of-nil")))
+  | L [A "O"; Q d] -> Some (TOther (cs d))
+  | _ -> failwith "bad type"
+
+let conv_obj (x : sexp) : obj option =
+  match x with
+  | A "_" -> None
+  | L [A "o"; A kind; id; pk; Q name; ism; recv; isal; oty; Q imported] ->
+    Some { o_kind = (match kind with "type" -> OTypeName | "func" -> OFunc | "var" -> OVar | "pkgname" -> OPkgName | _ -> OOtherObj);
+           o_id = z_of_int (atom_int id);
+           o_pkg = (match pk with Q p -> Some (cs p) | _ -> None);
+           o_name = cs name; o_is_method = (atom_int ism = 1); o_recv = conv_ty recv;
+           o_is_alias = (atom_int isal = 1); o_type = conv_ty oty; o_imported = cs imported }
+  | _ -> failwith "bad obj"
+
+let conv_kind = function
+  | "FuncDecl" -> KFuncDecl | "GenDecl" -> KGenDecl | "TypeSpec" -> KTypeSpec | "ValueSpec" -> KValueSpec
+  | "StructType" -> KStructType | "FieldList" -> KFieldList | "Field" -> KField | "AssignStmt" -> KAssignStmt
+  | "IncDecStmt" -> KIncDecStmt | "SelectorExpr" -> KSelectorExpr | "IndexExpr" -> KIndexExpr | "StarExpr" -> KStarExpr
+  | "Ident" -> KIdent | "CompositeLit" -> KCompositeLit | "CallExpr" -> KCallExpr | "CommentGroup" -> KCommentGroup
+  | "Comment" -> KComment | _ -> KOther
+
+let rec conv_node (x : sexp) : node =
+  match x with
+  | L (A "n" :: A kind :: p :: e :: Q name :: Q tok :: n :: m :: fl :: t :: o :: Q str2 :: str3 :: children) ->
+    Node (conv_kind kind, z_of_int (atom_int p), z_of_int (atom_int e),
+          { a_name = cs name; a_tok = cs tok; a_n = nat_of_int (atom_int n); a_m = nat_of_int (atom_int m);
+            a_flag = (atom_int fl = 1); a_ty = conv_ty t; a_obj = conv_obj o; a_str2 = cs str2;
+            a_str3 = (match str3 with Q s -> Some (cs s) | _ -> None) },
+          List.map conv_node children)
+  | _ -> failwith "bad node"
+
+type lfile = { lf : file; lbase : int; llines : int array; lname : string }
+type lpkg = { lid : string; lpkg : package; limports : (string * string) list; lfiles : lfile list }
+
+let conv_file (x : sexp) : lfile =
+  match x with
+  | L [A "file"; Q name; pk; en; base; L (A "lines" :: lines); L (A "imports" :: imps); L (A "comments" :: groups); L (A "decls" :: decls)] ->
+    let f = { f_name = cs name; f_package = z_of_int (atom_int pk); f_end = z_of_int (atom_int en);
+              f_decls = List.map conv_node decls;
+              f_comments = List.map (function L cl -> List.map (function L [Q t; p; e] -> { c_text = cs t; c_pos = z_of_int (atom_int p); c_end = z_of_int (atom_int e) } | _ -> failwith "bad comment") cl | _ -> failwith "bad group") groups;
+              f_imports = List.map (function L [Q a; Q p; Q n] -> { i_alias = cs a; i_path = cs p; i_pkgname = cs n } | _ -> failwith "bad import") imps;
+              f_lines = List.map (fun l -> z_of_int (atom_int l)) lines } in
+    { lf = f; lbase = atom_int base; llines = Array.of_list (List.map atom_int lines); lname = name }
+  | _ -> failwith "bad file"
+
+let conv_pkg (x : sexp) : lpkg =
+  match x with
+  | L [A "pkg"; Q id; Q path; Q name; L (A "imports" :: imps); L (A "files" :: files)] ->
+    let imps = List.map (function L [Q p; Q i] -> (p, i) | _ -> failwith "bad pkg import") imps in
+    let lfiles = List.map conv_file files in
+    { lid = id; limports = imps; lfiles;
+      lpkg = { p_path = cs path; p_name = cs name; p_files = List.map (fun l -> l.lf) lfiles; p_imports = List.map (fun (p, _) -> cs p) imps } }
+  | _ -> failwith "bad pkg"
+
+let read_file (path : string) : string =
+  let ic = open_in_bin path in
+  let n = in_channel_length ic in
+  let s = really_input_string ic n in
+  close_in ic; s
+
+(* position -> (file name, line, column) through the physical line tables *)
+let locate (p : lpkg) (pos : int) : string * int * int =
+  let best = ref None in
+  List.iter (fun f -> if f.lbase <= pos then match !best with Some b when b.lbase >= f.lbase -> () | _ -> best := Some f) p.lfiles;
+  match !best with
+  | None -> ("?", 0, 0)
+  | Some f ->
+    let lo = ref 0 and hi = ref (Array.length f.llines - 1) in
+    while !lo < !hi do let mid = (!lo + !hi + 1) / 2 in if f.llines.(mid) <= pos then lo := mid else hi := mid - 1 done;
+    if Array.length f.llines = 0 then (f.lname, 0, 0) else (f.lname, !lo + 1, pos - f.llines.(!lo) + 1)
+
+let unhex_list (h : string) : char list list =
+  if h = "" || h = "-" then [] else List.map (fun x -> cs (hex_decode x)) (split_on ',' h)
+
+let ann_summary (a : annots) : string =
+  let s l = String.concat "," (List.map string_of_chars l) in
+  let k = function AKType -> "type" | AKFunc -> "func" | AKMethod -> "method" in
+  String.concat ";" (
+    List.map (fun x -> Printf.sprintf "impl:%s:%s%s.%s:%s:%b" (string_of_chars x.ia_type) (if x.ia_ptr then "&" else "") (string_of_chars x.ia_pkgname) (string_of_chars x.ia_iface) (string_of_chars x.ia_fullpath) x.ia_notfound) a.an_impl @
+    List.map (fun x -> Printf.sprintf "ctor:%s:%s" (string_of_chars x.ca_type) (s x.ca_names)) a.an_ctor @
+    List.map (fun x -> Printf.sprintf "imm:%s" (string_of_chars x.ima_type)) a.an_imm @
+    List.map (fun x -> Printf.sprintf "tonl:%s:%s:%s" (k x.ta_kind) (string_of_chars x.ta_name) (string_of_chars x.ta_recv)) a.an_tonl @
+    List.map (fun x -> Printf.sprintf "mut:%s:%s" (string_of_chars x.ma_type) (string_of_chars x.ma_field)) a.an_mut @
+    List.map (fun x -> Printf.sprintf "pkgo:%s:%s:%s:%s" (k x.pa_kind) (string_of_chars x.pa_name) (string_of_chars x.pa_recv) (s x.pa_allowed)) a.an_pkgo)
+
+(* analyze <dump> <scan 0|1> <hex paths> <hex checks> *)
+let run_analyze (dump : string) (scan : string) (paths : string) (checks : string) =
+  let cfg = { scan_tests = (scan = "1"); exclude_paths = unhex_list paths; exclude_checks = unhex_list checks } in
+  let pkgs = List.map conv_pkg (parse_sexps (read_file dump)) in
+  let facts : (string, annots) Hashtbl.t = Hashtbl.create 64 in
+  List.iter (fun p ->
+      let all = List.filter_map (fun (path, id) -> match Hashtbl.find_opt facts id with Some a -> Some (cs path, a) | None -> None) p.limports in
+      Printf.printf "W %s %d\n" (hex_encode p.lid) (if x_wf_package p.lpkg then 1 else 0);
+      match x_analyze cfg p.lpkg all with
+      | APanic site -> Printf.printf "P %s %s\n" p.lid (hex_encode (string_of_chars site))
+      | AOk (own, ds) ->
+        Hashtbl.replace facts p.lid own;
+        Printf.printf "A %s %s\n" (hex_encode p.lid) (hex_encode (ann_summary own));
+        List.iter (fun d ->
+            let pos = int_of_z d.d_pos in
+            let (f, line, col) = locate p pos in
+            Printf.printf "D %s %s %d %d %s %s\n" (hex_encode p.lid) (hex_encode f) line col (string_of_chars d.d_code) (hex_encode (string_of_chars d.d_msg))) ds) pkgs
+
 let () =
   match Array.to_list Sys.argv with
   | _ :: "ignoreset" :: _ -> run_ignoreset ()
+  | _ :: "analyze" :: dump :: scan :: paths :: checks :: _ -> run_analyze dump scan paths checks
   | _ :: "config" :: _ -> run_config ()
   | _ :: "reporter" :: _ -> run_reporter ()
   | _ -> prerr_endline "usage: modelrun <suite>"; exit 2
